@@ -75,6 +75,29 @@ def apply_aliases(prog):
             t = resolve(p)
             if t is not None and t not in known.get(kind, []):
                 back.setdefault(t, []).append(p)
+    # renamed functions: a pinned function that is gone, and exactly one function that is new, in the same impl /
+    # module, with the same kind and signature -- the pinned name is given back to it
+    known_fns = set(known.get("fns", []))
+    resolved = set(p for ps in back.values() for p in ps)
+    new_fns = {}
+    for (unit, path), f in prog.fns.items():
+        if path not in known_fns and f.get("dk") in ("Fn", "AssocFn") and path not in back:
+            new_fns.setdefault(path, f)
+    sigs = known.get("fn_sigs", {})
+    renamed = {}
+    for p in sorted(known_fns):
+        if p in defined or p in resolved or p not in sigs or p.startswith("<"):
+            continue
+        want = sigs[p]
+        cands = [q for q, f in new_fns.items() if not q.startswith("<") and q.rpartition("::")[0] == p.rpartition("::")[0]
+                 and [f.get("dk"), f.get("param_tys"), f.get("ret")] == want[:3] and q not in renamed.values()]
+        gone_siblings = [x for x in known_fns if x not in defined and x not in resolved and x in sigs
+                         and x.rpartition("::")[0] == p.rpartition("::")[0] and sigs[x][:3] == want[:3]]
+        if len(cands) == 1 and len(gone_siblings) == 1:
+            renamed[p] = cands[0]
+    for p, q in renamed.items():
+        back.setdefault(q, []).append(p)
+    prog.renamed = dict(renamed)
     prog.aliases = {t: sorted(ps) for t, ps in back.items()}
     if not back:
         return
@@ -184,10 +207,13 @@ def apply_field_groups(prog):
         missing = [(n, t) for n, t in pinned if n not in cur_names]
         if not missing:
             continue
-        nested = []       # (g, f, ty, vis)
+        nested = []       # (g, f, ty, vis) -- g is None for a renamed direct field
         for gf in cur:
             tpath = norm_path(gf.get("ty", ""))
-            if gf["name"] in dict(pinned) or tpath in known.get("adts", []):
+            if gf["name"] in dict(pinned):
+                continue
+            if prog.adts.get(tpath) is None or tpath in known.get("adts", []):
+                nested.append((None, gf["name"], gf.get("ty", ""), gf.get("vis", ""), gf.get("vis", "")))
                 continue
             t = prog.adts.get(tpath)
             if t is None or t.get("dk") != "Struct" or not t.get("variants"):
@@ -216,7 +242,7 @@ def apply_field_groups(prog):
             if len(cands) != 1:
                 cands = []
                 for x in nested:
-                    gty = norm_path(next(g_["ty"] for g_ in cur if g_["name"] == x[0]))
+                    gty = spath if x[0] is None else norm_path(next(g_["ty"] for g_ in cur if g_["name"] == x[0]))
                     if by_param.get((gty, x[1])) == mname and (x[0], x[1]) not in used:
                         cands.append(x)
             if len(cands) != 1:
@@ -232,15 +258,21 @@ def apply_field_groups(prog):
         if not mapping:
             continue
         groups[spath] = mapping
-    prog.field_groups = {s: {"%s.%s" % k: v[0] for k, v in m.items()} for s, m in groups.items()}
+    prog.field_groups = {s: {("%s.%s" % k if k[0] else k[1]): v[0] for k, v in m.items()} for s, m in groups.items()}
     if not groups:
         return
     # the struct's own description
     for spath, mapping in groups.items():
         adt = prog.adts[spath]
         fields = adt["variants"][0]["fields"]
-        gnames = set(g for (g, _f) in mapping)
+        gnames = set(g for (g, _f) in mapping if g)
         for (g, f), (pin, x) in mapping.items():
+            if g is None:
+                for fd in fields:
+                    if fd["name"] == f:
+                        fd["renamed_from"] = f
+                        fd["name"] = pin
+                continue
             gvis, fvis = x[3], x[4]
             vis = fvis if not fvis.startswith("Public") else gvis     # reachable only through both
             fields.append({"name": pin, "vis": vis, "ty": x[2], "grouped_in": "%s.%s" % (g, f)})
@@ -255,6 +287,17 @@ def apply_field_groups(prog):
             if isinstance(v, (dict, list)):
                 n[key] = rw(v)
         k = n.get("k")
+        if k == "field":
+            m = groups.get(norm_path(n.get("adt", "")))
+            if m and (None, n["name"]) in m:
+                n["name"] = m[(None, n["name"])][0]
+                return n
+        if k == "pstruct":
+            m = groups.get(norm_path(n.get("path", "")))
+            if m:
+                for fe in n.get("fields", []):
+                    if (None, fe.get("name")) in m:
+                        fe["name"] = m[(None, fe["name"])][0]
         if k == "field" and isinstance(n.get("e"), dict) and n["e"].get("k") == "field":
             inner = n["e"]
             s = norm_path(inner.get("adt", ""))
@@ -268,6 +311,9 @@ def apply_field_groups(prog):
                 out = []
                 for fe in n.get("fields", []):
                     sub = fe.get("e")
+                    if (None, fe["name"]) in m:
+                        out.append({"name": m[(None, fe["name"])][0], "e": sub})
+                        continue
                     gs = [(g, f) for (g, f) in m if g == fe["name"]]
                     if gs and isinstance(sub, dict) and sub.get("k") == "struct":
                         subf = {x["name"]: x["e"] for x in sub.get("fields", [])}
